@@ -27,7 +27,8 @@ MODEL_REPOS = [
 
 
 def ms(t):
-    return ZEROT if t == 0 else t * 1000
+    """model time (ms since start; 0 = the zero timestamp) -> script time"""
+    return ZEROT if t == 0 else t
 
 
 def model_to_script(i, ops):
@@ -278,6 +279,51 @@ def run_gossip(ctx, clauses, thorough, model=True):
                 run = where.get(c["at"])
                 viols.append({"clause": v["c"], "why": v["why"], "aid": v.get("aid"), "to": v.get("to"), "run": run,
                               "op": c["op"], "script": runs.get(run)})
+    # Strict conformance of the design model (informational: drift, not a violation): the executions of
+    # the model's own behaviours must be behaviours of Gossip.tla's ACTIONS with the observed writes,
+    # disconnects, gossip table, address book and routing table (spec/TraceGossipOp.tla).
+    if model and stats.get("model_behaviours"):
+        # the executions of the model's behaviours are already in the log: select their records
+        ep = os.path.join(ctx.work, "mevents.ndjson")
+        nm, keep, budget = 0, False, (12000 if thorough else 1500)
+        with open(ep, "w") as f:
+            for line in events:
+                if line.startswith('{"ev":"init"'):
+                    rid = json.loads(line)["run"]
+                    keep = str(rid).startswith("m") and nm < budget
+                    nm += 1 if keep else 0
+                if keep:
+                    f.write(line)
+        try:
+            okm, infom, tresm = ctx.validate("TraceGossipOp", "TraceGossipOp.cfg", ep, timeout=3000, heap="8g",
+                                             label="strict model conformance (informational)")
+            stats["model_conformance"] = {"behaviours": nm, "accepted": okm, "rejected": infom.get("rejected")}
+            if not okm:
+                vlib.log(f"MODEL-DRIFT (not a violation): the real Service left Gossip.tla's actions: {infom.get('rejected')}")
+            if okm and thorough:
+                # binding self-test: a log with one stored announcement dropped / one write added must be rejected
+                lines = open(ep).read().splitlines()
+                for kind in ("drop-table-entry", "add-write"):
+                    done, outl = False, []
+                    for ln in lines:
+                        e = json.loads(ln)
+                        if not done and e["ev"] == "step":
+                            if kind == "drop-table-entry" and len(e["table"]) >= 3:
+                                e["table"], done = e["table"][:-1], True
+                            elif kind == "add-write" and e["op"][0] == "ann" and e["conn"] and e["table"]:
+                                e["sends"], done = e["sends"] + [[e["conn"][0], e["table"][0]]], True
+                        outl.append(json.dumps(e, separators=(",", ":")))
+                    cp = os.path.join(ctx.work, f"selftest-{kind}.ndjson")
+                    with open(cp, "w") as f:
+                        f.write("\n".join(outl) + "\n")
+                    okc, _, _ = ctx.validate("TraceGossipOp", "TraceGossipOp.cfg", cp, timeout=3000, heap="8g", label=f"binding self-test: {kind}")
+                    if okc:
+                        raise vlib.ToolError(f"binding self-test failed: corrupted log ({kind}) was accepted by TraceGossipOp")
+                stats["model_conformance"]["selftest_corrupted_logs_rejected"] = 2
+        except vlib.ToolError as e:
+            if "self-test" in str(e):
+                raise
+            stats["model_conformance"] = {"behaviours": nm, "accepted": None, "error": str(e)[:300]}
     stats["steps"] = steps
     stats["runs"] = len(scripts)
     stats["events"] = len(events)
